@@ -252,9 +252,14 @@ def boundary_2d(cx):
             set_exponent(tn, rng, how, dtype)
             ex = value_of(tn)
             base = dict(kind=kind, L=[Lx, Ly], D=D, cyclic=list(cyc) if isinstance(cyc, tuple) else cyc, dtype=dtype,
-                        exponent=how != "none", expo=how)
+                        exponent=how != "none", expo=how, unit_dim=1 in (Lx, Ly))
             tol = tol_of(dtype)
             before = tn.copy()
+            # a safe bound on every exact boundary bond: (bond per lattice edge) ** (longest side - 1)
+            d_edge = D if kind == "flat" else (D * D if kind == "norm" else 2 * D * D)
+            chi_exact = max(d_edge ** (max(Lx, Ly) - 1), d_edge)
+            if cyc:  # an open boundary MPS has to carry the wrap-around bond as well
+                chi_exact = chi_exact * chi_exact * d_edge
             modes = list(MODES_2D_FAST)
             nslow = 2 if cx.quick else 5
             modes += [MODES_2D_SLOW[int(x)] for x in rng.permutation(len(MODES_2D_SLOW))[:nslow]]
@@ -275,9 +280,13 @@ def boundary_2d(cx):
                     if single and mode.startswith("fit"):
                         loose = 1000
 
-                    def t_exact(mode=mode, canonize=canonize, seq=seq, lt=lt, nopts=nopts, inplace=inplace, loose=loose):
+                    # modes that allocate sketches / guesses of size max_bond get the exact bound, the others alternate
+                    chi = chi_exact if (mode in MODES_2D_SLOW or mode.startswith(("src", "fit")) or rng.random() < 0.3) else CHI
+                    p["max_bond"] = chi
+
+                    def t_exact(mode=mode, canonize=canonize, seq=seq, lt=lt, nopts=nopts, inplace=inplace, loose=loose, chi=chi):
                         t0 = tn.copy()
-                        r = t0.contract_boundary(max_bond=CHI, cutoff=0.0, mode=mode, canonize=canonize, sequence=seq, layer_tags=lt,
+                        r = t0.contract_boundary(max_bond=chi, cutoff=0.0, mode=mode, canonize=canonize, sequence=seq, layer_tags=lt,
                                                  inplace=inplace, final_contract_opts=dict(optimize="greedy"), **nopts)
                         e = cmp_value(as_value(r), ex, tol * loose)
                         if e:
@@ -323,12 +332,13 @@ def boundary_2d(cx):
                 cap = int(rng.integers(D, D * D)) if D > 1 else 1
                 for capped in (False, True):
                     p = dict(base, from_which=fw, range=list(rngw), mode=mode, canonize=canonize, layered=lt is not None,
-                             cap=cap if capped else None)
+                             cap=cap if capped else None, full_range=(rngw[1] - rngw[0] + 1 == Lw))
 
                     def t_step(fw=fw, rngw=rngw, mode=mode, canonize=canonize, lt=lt, cap=cap, capped=capped):
                         fn = getattr(tn, "contract_boundary_from_" + fw)
                         kw = dict(xrange=rngw) if fw[0] == "x" else dict(yrange=rngw)
-                        r = fn(max_bond=cap if capped else CHI, cutoff=0.0, mode=mode, canonize=canonize, layer_tags=lt, **kw)
+                        chi = chi_exact if mode.startswith(("src", "fit")) else CHI
+                        r = fn(max_bond=cap if capped else chi, cutoff=0.0, mode=mode, canonize=canonize, layer_tags=lt, **kw)
                         if not tensors_equal(tn, before):
                             return "the non in-place call modified the network"
                         if capped:
@@ -349,6 +359,152 @@ def boundary_2d(cx):
                 for n in (2, 3, 4):
                     def t_boot(n=n):
                         r = tn.contract_full_bootstrap(n, max_bond=CHI, cutoff=0.0)
-                        return cmp_value(as_value(r) * 10.0 ** float(tn.exponent) if False else as_value(r), ex, tol)
+                        return cmp_value(as_value(r), ex, tol)
 
-                    cx.check("contract_full_bootstrap(n) (untruncated) == exact contraction", dict(base, n=n), t_boot)
+                    cx.check("contract_full_bootstrap(n) (untruncated) == exact contraction",
+                             dict(base, n=n, two_rows=(Lx == 2 if Lx >= Ly else Ly == 2)), t_boot)
+
+
+@driver("C12", "environments-2d", chunks=2, timeout=300,
+        bound="compute_environments (4 sides) / compute_x_environments / compute_y_environments / compute_plaquette_environments "
+              "on the same 2D networks (flat up to 4x4, PEPS norms up to 4x3, three-layer sandwiches), modes mps / full-bond / "
+              "projector2d / 1D compressors, canonize, dense, layer_tags, equalize_norms, x/y ranges, supplied envs dict, "
+              "first_contract / second_dense for plaquettes of size 1x1..2x2. untruncated (max_bond=4096, cutoff=0): every stored "
+              "environment combined with the rows / columns / plaquette it excludes contracts to the value of the whole "
+              "(x 10**(env.exponent + tn.exponent)); capped: every bond inside an environment <= cap")
+def environments_2d(cx):
+    quiet_env()
+    rng = cx.rng
+    expos = ["none", "attr", "equalize"]
+    geos = [g for g in _geos_2d(cx.quick) if g[1] * g[2] <= 16]
+    env_modes = ["mps", "full-bond", "projector2d", "direct", "dm", "zipup", "local-early", "projector"]
+    for gi, (kind, Lx, Ly, D, cyc) in enumerate(geos):
+        for di, dtype in enumerate(DTYPES):
+            if di >= 2 and (cx.quick or Lx * Ly > 9) and (gi + di) % 2:
+                continue
+            how = expos[(gi + di + 1) % 3]
+            if not cx.mine():
+                continue
+            if cx.out_of_time():
+                cx.inconclusive.append("environments-2d: time budget exhausted")
+                return
+            tn, layers = make_2d(rng, kind, Lx, Ly, D, dtype, cyc)
+            set_exponent(tn, rng, how, dtype)
+            ex = value_of(tn)
+            base = dict(kind=kind, L=[Lx, Ly], D=D, cyclic=list(cyc) if isinstance(cyc, tuple) else cyc, dtype=dtype,
+                        exponent=how != "none", expo=how, unit_dim=1 in (Lx, Ly))
+            tol = tol_of(dtype, 10)
+            d_edge = D if kind == "flat" else (D * D if kind == "norm" else 2 * D * D)
+
+            def rows(sel):
+                return [t for i in sel for j in range(Ly) for t in tn.select_tensors(tn.site_tag(i, j))]
+
+            def cols(sel):
+                return [t for j in sel for i in range(Lx) for t in tn.select_tensors(tn.site_tag(i, j))]
+
+            def joined_value(envs_list, comp):
+                ops = [(np.asarray(t.data).astype(np.complex128), t.inds) for e in envs_list for t in e.tensors]
+                ops += [(np.asarray(t.data).astype(np.complex128), t.inds) for t in comp]
+                expo = sum(float(e.exponent) for e in envs_list) + float(tn.exponent)
+                return complex(contract_dense(ops, [])) * 10.0 ** expo
+
+            def complement(fw, i):
+                if fw == "xmin":
+                    return rows(range(i, Lx))
+                if fw == "xmax":
+                    return rows(range(0, i + 1))
+                if fw == "ymin":
+                    return cols(range(i, Ly))
+                return cols(range(0, i + 1))
+
+            for fw in ("xmin", "xmax", "ymin", "ymax"):
+                Lw = Lx if fw[0] == "x" else Ly
+                for mode in [env_modes[int(x)] for x in rng.permutation(len(env_modes))[:(3 if cx.quick else 6)]]:
+                    canonize = bool(rng.integers(2))
+                    dense = bool(rng.random() < 0.2)
+                    lt = layers if (layers is not None and rng.random() < 0.7) else None
+                    eq = [False, False, True, 1.0][int(rng.integers(4))] if mode != "full-bond" else False
+                    cap = int(rng.integers(D, D * D)) if D > 1 else 1
+                    for capped in (False, True):
+                        if capped and dense:
+                            continue
+                        p = dict(base, from_which=fw, mode=mode, canonize=canonize, dense=dense, layered=lt is not None,
+                                 equalize_norms=eq, cap=cap if capped else None)
+
+                        def t_env(fw=fw, Lw=Lw, mode=mode, canonize=canonize, dense=dense, lt=lt, eq=eq, cap=cap, capped=capped):
+                            envs = tn.compute_environments(fw, max_bond=cap if capped else CHI, cutoff=0.0, mode=mode, canonize=canonize,
+                                                           dense=dense, layer_tags=lt, equalize_norms=eq)
+                            want = {(fw, i) for i in range(Lw)}
+                            if not want <= set(envs):
+                                return f"missing environments {sorted(want - set(envs))}"
+                            for i in range(Lw):
+                                env = envs[fw, i]
+                                if capped:
+                                    e = check_cap(env, cap, d_edge if lt is None else D, f"environment {fw},{i}")
+                                else:
+                                    e = cmp_value(joined_value([env], complement(fw, i)), ex, tol, f"environment ({fw},{i}) x complement")
+                                if e:
+                                    return e
+
+                        cx.check("compute_environments(from_which): each stored environment x the excluded rows/columns == the whole "
+                                 "(untruncated) / bonds within the cap", p, t_env)
+            for which, mode in itertools.product("xy", [env_modes[int(x)] for x in rng.permutation(len(env_modes))[:(2 if cx.quick else 5)]]):
+                Lw = Lx if which == "x" else Ly
+                canonize = bool(rng.integers(2))
+                dense = bool(rng.random() < 0.2)
+                lt = layers if (layers is not None and rng.random() < 0.7) else None
+                supplied = bool(rng.integers(2))
+                p = dict(base, which=which, mode=mode, canonize=canonize, dense=dense, layered=lt is not None, envs_supplied=supplied)
+
+                def t_xy(which=which, Lw=Lw, mode=mode, canonize=canonize, dense=dense, lt=lt, supplied=supplied):
+                    fn = tn.compute_x_environments if which == "x" else tn.compute_y_environments
+                    store = {} if supplied else None
+                    envs = fn(max_bond=CHI, cutoff=0.0, mode=mode, canonize=canonize, dense=dense, layer_tags=lt, envs=store)
+                    if supplied and envs is not store:
+                        return "the supplied envs dict was not used"
+                    for i in range(Lw):
+                        a, b = envs[which + "min", i], envs[which + "max", i]
+                        mid = rows([i]) if which == "x" else cols([i])
+                        e = cmp_value(joined_value([a, b], mid), ex, tol, f"{which}min x {which}={i} x {which}max")
+                        if e:
+                            return e
+
+                cx.check("compute_x_environments / compute_y_environments: lower env x row/column i x upper env == the whole", p, t_xy)
+            for (xb, yb) in [(1, 1), (1, 2), (2, 1), (2, 2)]:
+                if xb > Lx or yb > Ly:
+                    continue
+                for fc, sd in itertools.product((None, "x", "y"), (None, True, False)):
+                    if rng.random() < (0.75 if cx.quick else 0.4):
+                        continue
+                    mode = ["mps", "full-bond", "projector2d"][int(rng.integers(3))]
+                    lt = layers if (layers is not None and rng.random() < 0.7) else None
+                    canonize = bool(rng.integers(2))
+                    cap = int(rng.integers(D, D * D)) if D > 1 else 1
+                    for capped in (False, True):
+                        p = dict(base, x_bsz=xb, y_bsz=yb, first_contract=fc, second_dense=sd, mode=mode, canonize=canonize,
+                                 layered=lt is not None, cap=cap if capped else None)
+
+                        def t_pl(xb=xb, yb=yb, fc=fc, sd=sd, mode=mode, lt=lt, canonize=canonize, cap=cap, capped=capped):
+                            envs = tn.compute_plaquette_environments(x_bsz=xb, y_bsz=yb, max_bond=cap if capped else CHI, cutoff=0.0,
+                                                                     first_contract=fc, second_dense=sd, mode=mode, layer_tags=lt,
+                                                                     canonize=canonize)
+                            want = {((i, j), (xb, yb)) for i in range(Lx - xb + 1) for j in range(Ly - yb + 1)}
+                            if cyc:
+                                want = {w for w in want if w in envs}
+                            if not want <= set(envs):
+                                return f"missing plaquettes {sorted(want - set(envs))[:3]}"
+                            for (i0, j0), sz in sorted(want):
+                                env = envs[(i0, j0), sz]
+                                if capped:
+                                    if sd is True or (sd is None and 1 in (xb, yb)):
+                                        continue  # dense second sweep: nothing is compressed there
+                                    e = check_cap(env, cap, d_edge if lt is None else D, f"plaquette environment {(i0, j0), sz}")
+                                else:
+                                    inner = [t for i in range(i0, i0 + xb) for j in range(j0, j0 + yb)
+                                             for t in tn.select_tensors(tn.site_tag(i, j))]
+                                    e = cmp_value(joined_value([env], inner), ex, tol, f"plaquette {(i0, j0), sz}: env x plaquette")
+                                if e:
+                                    return e
+
+                        cx.check("compute_plaquette_environments: environment x its plaquette == the whole (untruncated) / bonds within the cap",
+                                 p, t_pl)
